@@ -115,6 +115,12 @@ Qed.
 Lemma shipped_types_match : forallb (fun r => (sf_type r =? sf_vtype r)%Z) shipped_signers = true.
 Proof. vm_compute. reflexivity. Qed.
 
+(* every shipped signer reserves room for the signature it produces, and every signer that announces Interest fields stays
+   below the 253 octets MakeInterest admits (a changed EstimateSize() that breaks this is reported here) *)
+Lemma shipped_estimates_admissible :
+  forallb (fun r => (0 <? sf_est r) && sf_fits r && (if sf_intfields r then sf_est r <? 253 else true)) shipped_signers = true.
+Proof. vm_compute. reflexivity. Qed.
+
 Lemma sig_type_of_data sg si est : data_siginfo sg = Ok (si, est) -> forall s, sig_active sg = Some s ->
   (0 <= sg_type s < two64z)%Z -> sig_type_of si = sg_type s.
 Proof.
